@@ -607,7 +607,22 @@ func (p *Parser) ParseTokens() (sx []Sexp, err error) {
 
 func (p *Parser) ParsingIter() iter.Seq[*ParserReply] {
 
-	return func(yield func(reply *ParserReply) bool) {
+	return func(yield0 func(reply *ParserReply) bool) {
+
+		// once the consumer has stopped iterating, it must never be
+		// called again (the parser may be suspended deep in a form,
+		// and unwinds through several more yield sites).
+		stopped := false
+		yield := func(reply *ParserReply) bool {
+			if stopped {
+				return false
+			}
+			if !yield0(reply) {
+				stopped = true
+				return false
+			}
+			return true
+		}
 
 		// allow ParseExpression to yield when deep
 		// down the stack (half way through a parse)
